@@ -313,7 +313,7 @@ pub fn member_of(p: &Program, ans: &T) -> Option<bool> {
     for rec_depth in [6u32, 16, 40] {
         let out = R1::new(
             &constrained,
-            refint::Opts { all_choices: false, fuel: 40_000, unfold: 1, rec_depth, max_answers: 2_000 },
+            refint::Opts { choice_script: None, fuel: 40_000, unfold: 1, rec_depth, max_answers: 2_000 },
         )
         .run();
         if out.answers.iter().any(|a| &a.term == ans) {
